@@ -46,6 +46,19 @@ class Ctx:
 
 
 def main():
+    sys.setrecursionlimit(200000)      # the checker walks documents nested thousands deep (C05 / C11 probes)
+    import threading
+    threading.stack_size(512 * 1024 * 1024)
+    t = threading.Thread(target=_main)
+    t.start()
+    t.join()
+    sys.exit(EXIT[0])
+
+
+EXIT = [1]
+
+
+def _main():
     ap = argparse.ArgumentParser()
     ap.add_argument("prop")
     ap.add_argument("--tier", default=os.environ.get("VERIF_TIER", "quick"))
@@ -153,7 +166,7 @@ def main():
     C.write_evidence(prop, tier, seed, "proof", cov, mod.ASSUMPTIONS, wall, len(ctx.violations) + (1 if (not ctx.violations and ctx.broken) else 0))
     C.log(f"{prop} {tier}: obligations {cov['discharged']}/{cov['obligations']}, cases {ctx.evaluations}, "
           f"violations {len(ctx.violations)}, broken ties {len(ctx.broken)}, {wall:.1f}s")
-    sys.exit(exit_code)
+    EXIT[0] = exit_code
 
 
 if __name__ == "__main__":
